@@ -329,6 +329,34 @@ def finding_key(line, impl):
     return "shape:%s" % line
 
 
+def long_dims_lines(rng, n=40):
+    """Shapes with far more than MAX_DEPTH dimensions (9 .. 600 entries; entry 8 — the first one that does not fit — small,
+    large and huge): the constructor must reject them without writing anything outside the object."""
+    out = []
+    for _ in range(n):
+        k = rng.choice([9, 10, 11, 12, 13, 16, 20, 40, 100, 600])
+        dims = [rng.choice([1, 1, 2, 3]) for _ in range(k)]
+        dims[8] = rng.choice([1, 2, 9, 11, 64, 1000, 65536, 4294967295])
+        out.append("new S:%s/%d" % (",".join(map(str, dims)), rng.choice([1, 2])))
+    return out
+
+
+def run_long_dims(chk):
+    """Implementation leg used by C11 (and C10): see long_dims_lines."""
+    exe = build.build_harness("h_shape")
+    lines = long_dims_lines(chk.rng)
+    outs, reports = vrun.run_impl(exe, lines, timeout=120)
+    chk.traces += 1
+    for l, o in zip(lines, outs):
+        chk.count(l[:80], o, o == "err")
+        if o != "err":
+            chk.report("shape:long-dims:%s" % ("crash" if o.startswith("crash") else "accepted"),
+                       "`%s...` (%d dimensions) answers `%s`; a Shape has at most 8 dimensions, the call must raise an Error and touch nothing else" % (
+                           l[:60], l.count(",") + 1, o[:200]),
+                       {"family": "shape", "harness": "h_shape", "lines": [l], "model_family": "shape", "observed_impl": o[:600]})
+            break
+
+
 def run(chk):
     quick = chk.tier == "quick"
     chk.rule = ("operation lines of the shape family (constructor, accessors, every shape rule) generated from one PRNG: "
@@ -347,7 +375,7 @@ def run(chk):
             seen.add(l); lines.append(l)
     corpus = [l.strip() for l in open(build.VERIF + "/corpus/shape.ops")] if __import__("os").path.exists(build.VERIF + "/corpus/shape.ops") else []
     lines = [l for l in corpus if l and not l.startswith("#")] + lines
-    for l in batch_rule_lines() + wrap_lines():
+    for l in batch_rule_lines() + wrap_lines() + long_dims_lines(chk.rng, 12 if quick else 200):
         if l not in seen:
             seen.add(l); lines.append(l)
     if not quick:
@@ -370,6 +398,18 @@ def run(chk):
         return None
 
     dis, judged, crashes = chk.correspond("shape", "h_shape", [lines], stateful=False, judge=judge)
+    # the scalar_op / elementwise rules as reached through the public functions (Node and Tensor forms): the dispatch on
+    # "has no dimensions" must not depend on the batch
+    try:
+        from props import _funcs as _f
+        from vlib import lean as _lean
+        _f.table_obligation_setup(chk)
+        _lean.lake(["build", "drv_funcs"], timeout=3000)
+        progs = [_f.scalar_dispatch_program(chk.rng) for _ in range(2 if quick else 30)]
+        found, dis2 = _f.run_programs(chk, progs)
+        _f.report_found(chk, found, dis2, prop="C09", keyprefix="funcs")
+    except ImportError:
+        chk.notes.append("function-level dispatch programs not available in this tree")
     broken = chk.broken_obligations()
     # 1. property violations seen on the implementation (independent of the model)
     for j in judged:
